@@ -246,6 +246,22 @@ func runCheck(repo, verif, prop, tier string, timeout, par int, keep bool) int {
 	if r := w.structuralWriters(prop); r != nil {
 		results = append(results, r)
 	}
+	{
+		// trusted, unverified repository contracts the proofs of this property used: pinned to their bodies
+		var all []string
+		seenRel := map[string]bool{}
+		for _, r := range results {
+			for _, k := range r.Relies {
+				if !seenRel[k] {
+					seenRel[k] = true
+					all = append(all, k)
+				}
+			}
+		}
+		if r := w.structuralPins(prop, all); r != nil {
+			results = append(results, r)
+		}
+	}
 	outDir := filepath.Join(verif, "out", prop+"-"+tier)
 	if os.Getenv("VERIF_EVIDENCE_DIR") != "" {
 		outDir = filepath.Join(os.Getenv("VERIF_EVIDENCE_DIR"), "smt-"+prop)
